@@ -163,6 +163,8 @@ def gen_alt(rng, idx, kinds, default_endian, zones):
         alt['code_size'] = csz
         alt['min'] = 0
         alt['max'] = rng.choice([(1 << csz) - 1, (1 << csz) - 2, 1])
+        if rng.random() < 0.25:
+            alt['min'], alt['max'] = -(1 << (csz - 1)), rng.choice([0, 0, 1])       # a bound of exactly 0 is a bound
     elif kind == 'address':
         alt['arg'] = gen_arg(rng, default_endian, sizes=(8, 12, 16, 16))
         alt['zone'] = rng.choice([None] + [z[0] for z in zones])
@@ -229,7 +231,7 @@ def gen_isa(rng, prof):
     def gen_variant():
         osz = rng.choice([2, 3, 4, 4, 5, 6, 8, 8, 8, 12])
         v = {'opcode': (rng.randrange(1 << osz), osz), 'endian': rng.choice([None, None, 'big', 'little']),
-             'suffix': (lambda s: (rng.randrange(1 << s), s))(rng.choice([1, 2, 3, 4])) if rng.random() < 0.25 else None,
+             'suffix': (lambda s: (rng.randrange(1 << s), s))(rng.choice([1, 2, 3, 4, 4, 9, 12, 16])) if rng.random() < 0.3 else None,
              'parser': None}
         cnt = rng.choice([0, 1, 1, 2, 2, 2, 3])
         if cnt > 0 or rng.random() < 0.3:
@@ -711,6 +713,8 @@ def operand_for(rng, alt, labels, addr_hint=0):
         d = alt['code_dict'] or alt['arg_dict']
         return x_num(rng, rng.choice(list(d)))
     if k == 'numeric_bytecode':
+        if not CLEAN[0] and rng.random() < 0.5:
+            return x_num(rng, rng.choice([alt['min'] - 1, alt['max'] + 1, -1, 1]))       # just outside (or at) a bound
         return x_num(rng, rng.randint(alt['min'], alt['max']))
     if k == 'address':
         if alt['slice']:
@@ -938,6 +942,18 @@ def gen_macro_scenario(rng, prof=None, tier='quick'):
     isa['sets']['sla'] = [{'id': 'sa1', 'kind': 'address', 'code': None, 'pos': 'suffix', 'arg': {'size': 8, 'align': True, 'endian': None},
                            'zone': 'tbl', 'slice': True, 'msb': True}]
     isa['instrs']['psh2'] = [variant(0xE4, 8, sets_parser(['sla']))]
+    # reversed argument order concerns the emitted arguments only: placeholder n is still operand n
+    rev = sets_parser(['imm', 'imm'])
+    rev['sets']['rev_arg'] = True
+    isa['macros']['mac6'] = [{'parser': rev, 'steps': [{'mn': 'ldx', 'ops': [[('ph', 'ARG', 0)]]}, {'mn': 'ldx', 'ops': [[('ph', 'ARG', 1)]]}]}]
+    # two listed operand combinations, the first of which starts with an `empty` operand: trying (and abandoning) it must leave
+    # no trace when the second is tried
+    isa['instrs']['jmpz2'] = [variant(0x7, 4, spec_parser(2, [[empty(12, 5), regalt(13, 'a', 1)], [regalt(14, 'b', 2), numeric(15)]]))]
+    # an instruction whose own byte order differs from the default, with a suffix wide enough for the order to matter
+    wide = variant(0xC1, 8, sets_parser(['rr']))
+    wide['endian'] = 'little' if e == 'big' else 'big'
+    wide['suffix'] = (0x1234, 16)
+    isa['instrs']['swp2'] = [wide]
     ph = ('ph', 'ARG', 0)
     forms = [[ph], [ph, ('tok', '*', t_op('OMul')), ('tok', '2', t_num(2))], [('tok', '3', t_num(3)), ('tok', '*', t_op('OMul')), ph],
              [ph, ('tok', '+', t_op('OAdd')), ('tok', '1', t_num(1))], [('tok', '9', t_num(9)), ('tok', '-', t_op('OSub')), ph],
@@ -971,7 +987,7 @@ def gen_macro_scenario(rng, prof=None, tier='quick'):
             return Txt(n, [t_lab(n)])
         return Txt(f'{n}+{b}', [t_lab(n), t_op('OAdd'), t_num(b)])
     kinds = ['dbl'] * 5 + ['mac1'] * 2 + ['mac2'] * 2 + ['swp', 'mac3', 'mac3', 'add3', 'add3', 'cmpq', 'cmpq', 'mac4', 'mac4', 'mac5', 'mac5',
-                                                          'ldx', 'tst', 'psh2', 'psh2']
+                                                          'ldx', 'tst', 'psh2', 'psh2', 'mac6', 'mac6', 'jmpz2', 'jmpz2', 'swp2']
     # a program is rejected as a whole by one unacceptable statement: at most one statement kind that may be unacceptable
     risky_left = 1 if rng.random() < 0.5 else 0
     for _ in range(rng.randint(2, 7)):
@@ -1013,6 +1029,15 @@ def gen_macro_scenario(rng, prof=None, tier='quick'):
         elif k == 'ldx':
             x = small_expr()
             stmts.append(['asm', 'ldx', [[x.text, x.toks]]])
+        elif k == 'mac6':
+            a1, a2 = rng.sample([3, 4, 5, 6, 7], 2)
+            stmts.append(['asm', 'mac6', [[str(a1), [t_num(a1)]], [str(a2), [t_num(a2)]]]])
+        elif k == 'jmpz2':
+            stmts.append(['asm', 'jmpz2', rng.choice([[['b', [t_lab('b')]], ['5', [t_num(5)]]], [['a', [t_lab('a')]]],
+                                                      [['b', [t_lab('b')]], ['7', [t_num(7)]]]])])
+        elif k == 'swp2':
+            rg = rng.choice(['a', 'b'])
+            stmts.append(['asm', 'swp2', [[rg, [t_lab(rg)]]]])
         elif k == 'psh2':
             inside = [tbl[1], tbl[2], tbl[1] + 5]
             outside = [tbl[1] - 1, tbl[2] + 1, origin + 0x100 + 0x45, origin + 2]
